@@ -210,7 +210,7 @@ Section invg.
     (∀ op chg, is_credited U op chg → (pUC P op ↔ pUC P' op)) →
     InvG P' s mb.
   Proof.
-    intros [] HTR HUM HUI HDG HCG HUC.
+    intros [Hb Htr Hum Hcs Hcc Hus Hds Hdc Huc Huis Huic Hmb Hlo] HTR HUM HUI HDG HCG HUC.
     assert (Hsp : ∀ op, (∃ m, conf_spender U F op m ∧ ¬ pDG P m op) ↔
                         (∃ m, conf_spender U F op m ∧ ¬ pDG P' m op)).
     { intros op. split; intros (m & Hm & Hn); exists m; (split; [done|]);
@@ -218,31 +218,31 @@ Section invg.
     constructor; try done.
     - intros t h bh. rewrite <- HTR. done.
     - intros t. rewrite <- HUM. done.
-    - intros t h bh i cv Hc. destruct (g_credits_sound0 _ _ _ _ _ Hc) as (H1 & H2 & H3 & H4 & H5).
+    - intros t h bh i cv Hc. destruct (Hcs _ _ _ _ _ Hc) as (H1 & H2 & H3 & H4 & H5).
       repeat split; try done.
       + by rewrite <- (HCG _ _ H3).
       + intros Hs. apply Hsp, H5, Hs.
       + intros Hs. apply H5, Hsp, Hs.
-    - intros t h bh i chg H1 H2 H3. eapply g_credits_complete0; eauto. by rewrite (HCG _ _ H2).
-    - intros op h bh. rewrite g_unspent0. split.
+    - intros t h bh i chg H1 H2 H3. eapply Hcc; eauto. by rewrite (HCG _ _ H2).
+    - intros op h bh. rewrite Hus. split.
       + intros (H1 & [chg H2] & H3 & H4). repeat split; eauto.
         * by rewrite <- (HCG _ _ H2).
         * by rewrite <- Hsp.
       + intros (H1 & [chg H2] & H3 & H4). repeat split; eauto.
         * by rewrite (HCG _ _ H2).
         * by rewrite Hsp.
-    - intros m h bh j a ck Hd. destruct (g_debits_sound0 _ _ _ _ _ _ Hd) as (H1 & op & ph & pbh & H2 & H3 & H4).
+    - intros m h bh j a ck Hd. destruct (Hds _ _ _ _ _ _ Hd) as (H1 & op & ph & pbh & H2 & H3 & H4).
       split; [done|]. exists op, ph, pbh. split; [done|]. split; [|done].
       rewrite <- HDG; [done|]. apply rb_input_at_elem. eauto.
-    - intros m h bh j op ph pbh chg H1 H2 H3 H4 H5. eapply g_debits_complete0; eauto.
+    - intros m h bh j op ph pbh chg H1 H2 H3 H4 H5. eapply Hdc; eauto.
       rewrite HDG; [done|]. apply rb_input_at_elem. eauto.
-    - intros op a chg. rewrite g_unmined_credits0. split.
+    - intros op a chg. rewrite Huc. split.
       + intros (H1 & H2 & H3). repeat split; try done. by rewrite <- (HUC _ _ H2).
       + intros (H1 & H2 & H3). repeat split; try done. by rewrite (HUC _ _ H2).
-    - intros op l Hl. destruct (g_ui_sound0 _ _ Hl) as (H1 & H2 & H3). repeat split; try done.
+    - intros op l Hl. destruct (Huis _ _ Hl) as (H1 & H2 & H3). repeat split; try done.
       + intros Hu. rewrite <- HUI. by apply H3.
       + intros Hu. apply H3. by rewrite HUI.
-    - intros op u Hu. apply (g_ui_complete0 op u). by rewrite HUI.
+    - intros op u Hu. apply (Huic op u). by rewrite HUI.
   Qed.
 End invg.
 
@@ -937,8 +937,8 @@ Section loops.
       + intros t' Hel. destruct (Htxs t' ltac:(by right)) as [? ?]. split; [done|].
         intros [?|?%elem_of_singleton]%elem_of_union; [done|]. congruence.
       + split.
-        * replace (done ∪ list_to_set (t :: txs)) with (done ∪ {[t]} ∪ list_to_set txs) by set_solver.
-          done.
+        * replace (done ∪ list_to_set (t :: txs)) with (done ∪ {[t]} ∪ list_to_set txs); [done|].
+          simpl. by rewrite (assoc_L (∪)).
         * rewrite H4.
           change (mjoin (cb_outs U <$> t :: txs)) with (cb_outs U t ++ mjoin (cb_outs U <$> txs)).
           by rewrite <- app_assoc.
@@ -1420,27 +1420,28 @@ End setbal.
 Lemma Inv_to_InvD U s F : Inv U s F → InvD U F (blocks s) ∅ s (bal s).
 Proof.
   intros HI. destruct HI as [Hwf Hbs Hbc Htr Hum Hcs Hcc Hus Hds Hdc Huc Huis Huic Hbal Hlo].
+  assert (Hne : ∀ t : N, ¬ t ∈ (∅ : gset N)) by (intros t; apply not_elem_of_empty).
   assert (Hsp : ∀ op, (∃ m, conf_spender U F op m) ↔ (∃ m : N, conf_spender U F op m ∧ ¬ m ∈ (∅ : gset N))).
-  { intros op. split; [intros [m Hm]; exists m; split; [done|set_solver]|intros (m & Hm & _); eauto]. }
+  { intros op. split; [intros [m Hm]; exists m; split; [done|apply Hne]|intros (m & Hm & _); eauto]. }
   constructor; simpl.
   - done.
-  - intros t h bh. rewrite Htr. split; [intros ?; split; [done|set_solver]|by intros [? _]].
-  - intros t. rewrite Hum. split; [by left|]. intros [?|[? _]]; [done|set_solver].
+  - intros t h bh. rewrite Htr. split; [intros ?; split; [done|apply Hne]|by intros [? _]].
+  - intros t. rewrite Hum. split; [by left|]. intros [?|[He _]]; [done|destruct (Hne _ He)].
   - intros t h bh i cv Hl. destruct (Hcs _ _ _ _ _ Hl) as (H1 & H2 & H3 & H4).
-    split; [done|]. split; [set_solver|]. split; [done|]. split; [done|]. rewrite H4. apply Hsp.
+    split; [done|]. split; [apply Hne|]. split; [done|]. split; [done|]. rewrite H4. apply Hsp.
   - intros t h bh i chg H1 H2 _. eapply Hcc; eauto.
   - intros op h bh. rewrite Hus, Hsp. split.
-    + intros (? & ? & ?). split; [done|]. split; [done|]. split; [set_solver|done].
+    + intros (? & ? & ?). split; [done|]. split; [done|]. split; [apply Hne|done].
     + intros (? & ? & _ & ?). done.
   - intros m h bh j a ck Hl. destruct (Hds _ _ _ _ _ _ Hl) as (H1 & op & ph & pbh & H2 & H3).
-    split; [done|]. exists op, ph, pbh. split; [done|]. split; [set_solver|done].
+    split; [done|]. exists op, ph, pbh. split; [done|]. split; [apply Hne|done].
   - intros m h bh j op ph pbh chg H1 H2 _ H3 H4. eapply Hdc; eauto.
   - intros op a chg. rewrite Huc. split.
     + intros (? & ? & ?). split; [by left|done].
-    + intros ([?|[? _]] & ? & ?); [done|set_solver].
+    + intros ([?|[He _]] & ? & ?); [done|destruct (Hne _ He)].
   - intros op l Hl. destruct (Huis _ _ Hl) as (H1 & H2 & H3). split; [done|]. split; [done|].
-    intros u. rewrite H3. split; [by left|]. intros [?|(? & _)]; [done|set_solver].
-  - intros op u [Hu|(? & _)]; [|set_solver]. by eapply Huic.
+    intros u. rewrite H3. split; [by left|]. intros [?|(He & _)]; [done|destruct (Hne _ He)].
+  - intros op u [Hu|(He & _)]; [|destruct (Hne _ He)]. by eapply Huic.
   - rewrite Hbal. reflexivity.
   - done.
 Qed.
@@ -1511,3 +1512,45 @@ Section main.
     rewrite Hs'. split; [done|]. split; [exact HI'|exact Hclk].
   Qed.
 End main.
+
+(** * The obligation without hypotheses: the two interface statements are
+      closed in [InvRemove.v] ([descendants_ok], [remove_conflict_ok]). *)
+From Verif Require Tx.InvRemove.
+
+Lemma rollback_refines_closed U s0 F h :
+  wf_universe U = true → Inv U s0 F →
+  ∃ s', rollback U (fuel_of U) h s0 = Some s' ∧ Inv U s' (spec_disconnect U F h).
+Proof.
+  apply rollback_refines; [apply InvRemove.descendants_ok|apply InvRemove.remove_conflict_ok].
+Qed.
+
+Lemma step_preserves_disconnect U h : step_preserves U (Disconnect h).
+Proof.
+  apply step_preserves_disconnect_hyp; [apply InvRemove.descendants_ok|apply InvRemove.remove_conflict_ok].
+Qed.
+
+Print Assumptions step_preserves_disconnect.
+
+(** * Non-vacuity: a history whose [Disconnect] detaches a coinbase with an
+      unconfirmed spender and a parent/child pair of the same block. *)
+Module rb_example.
+  Definition t1 : tx := {| t_id := 1%N; t_ins := []; t_outs := [50]; t_creds := [(0%N, false)]; t_coinbase := true |}.
+  Definition t2 : tx := {| t_id := 2%N; t_ins := [(1%N, 0%N)]; t_outs := [10]; t_creds := [(0%N, false)]; t_coinbase := false |}.
+  Definition t3 : tx := {| t_id := 3%N; t_ins := []; t_outs := [30]; t_creds := [(0%N, false)]; t_coinbase := false |}.
+  Definition t4 : tx := {| t_id := 4%N; t_ins := [(3%N, 0%N)]; t_outs := [20]; t_creds := [(0%N, true)]; t_coinbase := false |}.
+  Definition U : gmap N tx := <[1%N := t1]> (<[2%N := t2]> (<[3%N := t3]> (<[4%N := t4]> ∅))).
+  Definition hist : list event :=
+    [Confirm 1%N 0 7%N 0; Confirm 3%N 1 8%N 0; Confirm 4%N 1 8%N 0; Seen 2%N; Disconnect 0].
+
+  Example wf : wf_universe U = true. Proof. by vm_compute. Qed.
+  Example consistent : chain_consistent U hist = true. Proof. by vm_compute. Qed.
+  Example before :
+    (bal (st (run U (take 4 hist))), elements (f_unconf (fs (spec_run U (take 4 hist)))))
+    = (70, [2%N]).
+  Proof. by vm_compute. Qed.
+  Example after :
+    (bal (st (run U hist)), (map_to_list (unmined (st (run U hist)))).*1,
+     elements (f_unconf (fs (spec_run U hist))), map_to_list (f_conf (fs (spec_run U hist))))
+    = (0, [3%N; 4%N], [3%N; 4%N], []).
+  Proof. by vm_compute. Qed.
+End rb_example.
